@@ -63,6 +63,10 @@ check("C18", "exploration", "runtime differential per nesting depth (slice vs re
       "Held on every execution: 84 (format, shape, target) combinations x a +-6 window around each limit, 1000..1025, 10^4, 10^5 (10^6 thorough; YAML capped); ~900 binary runs (debug+release, file+stdin) at the limit, one beyond and far beyond; 2*10^4 size-calculator comparisons.",
       "YAML depth is capped for CPU reasons (quadratic); one shared limit per format is demanded across shapes and targets that accept the document at all.",
       "DESIGN.md 3/C18")
+check("C17", "other", "compiler sanitizers over a hostile workload: AddressSanitizer+LeakSanitizer build in sharded processes, Miri on a subset, valgrind memcheck on the release binary (thorough), conservation counters for Parser/Event lifetimes",
+      "Zero sanitizer reports on the executed workload: ~10^3 (quick) / 5*10^4 (thorough) corpus inputs each driven as YAML through the public API (read sizes 1..17, random, whole; explicit and detected), with reader errors, over-reporting readers of excess 1..64 into the raw parser / chunker (hook) / public API, early drop of the parser after every event count, re-encoder boundary units; 32..320 inputs under Miri. The leak detector is shown alive by a planted leak in every run.",
+      "Sanitizers see only executed paths; red-zone tools miss intra-object overflows (Miri covers part of that on a smaller workload). Panics are an allowed outcome for contract-violating readers.",
+      "DESIGN.md 3/C17")
 
 for pid in ["C01","C03","C04","C05","C06","C07","C08","C09","C10","C11","C12","C13","C14","C15","C16","C17","C18"]:
     if pid not in CHECKS:
